@@ -976,6 +976,46 @@ func TestMessages(t *testing.T) {
 			}
 		}
 	}
+	// C05: one encoder writing several messages one after the other (no Clear in between): every message is gated by its own
+	// header, not by the version the previous message left in the encoder
+	for _, e := range opTable {
+		for dir, pl := range []kmip.OperationPayload{e.Req, e.Resp} {
+			for v1 := 0; v1 <= 4; v1++ {
+				for v2 := 0; v2 <= 4; v2++ {
+					if v1 == v2 {
+						continue
+					}
+					id := fmt.Sprintf("after-message/%s/%d/1.%d-then-1.%d", ttlv.EnumStr(e.Op), dir, v1, v2)
+					n++
+					func() {
+						defer func() {
+							if r := recover(); r != nil {
+								out.Emit(map[string]any{"msg": id, "problems": []string{"panic:" + vh.PanicSig(r)}})
+							}
+						}()
+						mk := func(v int) any {
+							p := buildPayload(pl, full, v)
+							fixupPayload(p)
+							if dir == 0 {
+								return &kmip.RequestMessage{Header: kmip.RequestHeader{ProtocolVersion: ver(v), BatchCount: 1}, BatchItem: []kmip.RequestBatchItem{{Operation: e.Op, RequestPayload: p}}}
+							}
+							return &kmip.ResponseMessage{Header: kmip.ResponseHeader{ProtocolVersion: ver(v), TimeStamp: sampleTime, BatchCount: 1}, BatchItem: []kmip.ResponseBatchItem{{Operation: e.Op, ResponsePayload: p}}}
+						}
+						first, second := mk(v1), mk(v2)
+						enc := ttlv.NewTTLVEncoder()
+						enc.Any(first)
+						off := len(enc.Bytes())
+						enc.Any(second)
+						got := enc.Bytes()[off:]
+						want := ttlv.MarshalTTLV(second)
+						if !bytes.Equal(got, want) {
+							out.Emit(map[string]any{"msg": id, "problems": []string{fmt.Sprintf("gating:message-depends-on-previous-message:first-difference-at-%d (%d bytes after a 1.%d message, %d bytes alone)", firstDiff(got, want), len(got), v1, len(want))}})
+						}
+					}()
+				}
+			}
+		}
+	}
 	// messages larger than any initial buffer: many batch items, a large managed object, many identifiers
 	{
 		var items []kmip.RequestBatchItem
